@@ -7,6 +7,7 @@
 -/
 import GoHeader.Lemmas.Ranges
 import GoHeader.Gen.Sync
+import GoHeader.Sync.Subjective
 namespace GoHeader.C07Ranges
 open GoHeader GoHeader.Ranges
 
@@ -99,6 +100,20 @@ theorem c07_add_records_new_heads (rs : Ranges) (h : Nat) (hi : Ranges.Inv rs) :
       have := (inv_head_max hi hh).2 x hx; simp; omega
     rw [heights_snoc] at hall
     simp [hall]
+
+/-- refinement: on the cached heights, `ranges.Add` IS the `addH` of the abstract log that `Sync.Subjective` (C19) works with … -/
+theorem c07_pending_refines_log_add (rs : Ranges) (h : Nat) (hi : Ranges.Inv rs) :
+    heights (add rs h) = Subjective.addH (heights rs) h := by
+  rw [c07_add_records_new_heads _ _ hi]; rfl
+
+/-- … and `ranges.Prune(e)` is its `filter (· > e)` -/
+theorem c07_pending_refines_log_prune : ∀ (rs : Ranges) (e : Nat), Ranges.Inv rs → heights (prune rs e) = (heights rs).filter (· > e)
+  | [], _, _ => rfl
+  | r :: rest, e, hi => by
+    have hrest : Ranges.Inv rest := ⟨fun a ha => hi.wf a (by simp [ha]), (List.pairwise_cons.1 hi.sep).2, (List.pairwise_cons.1 hi.ep).2⟩
+    have ih := c07_pending_refines_log_prune rest e hrest
+    show heights (remove r e :: prune rest e) = _
+    rw [heights_cons, heights_cons, List.filter_append, ih, remove_spec e (hi.wf r (by simp))]
 
 /-- one `Add` between the loop's `Get(to)` and its `Remove(to)`: the first range still yields the same headers for `to`
     (so `Remove` drops exactly what was stored), provided `to` is a cached head - as the sync target always is -/
